@@ -27,7 +27,7 @@ ASSUMPTIONS = ["env.X is by definition the published transformed table; tables w
                "(3 + 2*window days) are not 'daily or finer' and are not generated",
                "a configuration with too little data may be refused at construction (counted as config-rejected)"]
 REQUIRED = ["C18:kept-observation-unchanged", "C18:observation", "C18:bounds", "C18:step-date", "C18:quotes", "C18:rate", "C18:full-window", "C18:published-table"]
-REQUIRED_CATS = ["index-unit-not-microseconds", "decision-refused-then-resubmitted", "latency-with-intraday-feature-rows", "earlier-fold-after-later-fold", "last-date-is-a-holiday", "fold-after-holiday-cluster", "rate-off-price-dates", "window>1", "stride", "late-fold", "calendar:LSE", "calendar:NYSE", "transformer:None", "transformer:z-score",
+REQUIRED_CATS = ["prices-spanning-orders-of-magnitude", "index-unit-not-microseconds", "decision-refused-then-resubmitted", "latency-with-intraday-feature-rows", "earlier-fold-after-later-fold", "last-date-is-a-holiday", "fold-after-holiday-cluster", "rate-off-price-dates", "window>1", "stride", "late-fold", "calendar:LSE", "calendar:NYSE", "transformer:None", "transformer:z-score",
                  "transformer:yeo-johnson"]
 TECHNIQUE = "runtime monitoring: observations, quotes and step dates of real episodes compared at every call with the tables the environment was given"
 LEVEL_TEXT = ("Exploration over generated table shapes and options; at every call of every episode the observation, the traded quotes, "
@@ -65,6 +65,13 @@ def case(ctx, i, tier):
     ny = r.randint(1, 3)
     X = pd.DataFrame(rng.normal(0, 2, [len(dX), nf]), dX, columns=["f%d" % j for j in range(nf)])
     Y = pd.DataFrame(100 * np.exp(np.cumsum(rng.normal(0, 0.01, [n, ny]), 0)), dY, columns=["y%d" % j for j in range(ny)])
+    if ny >= 2 and r.random() < 0.2:
+        # prices spanning many orders of magnitude across the assets of one table (a micro-priced token next to an
+        # index level): the quotes are the given prices whatever their scale
+        Y.iloc[:, 0] = Y.iloc[:, 0] * r.choice([1e-8, 1e-6])
+        if ny >= 3:
+            Y.iloc[:, 2] = Y.iloc[:, 2] * 1e9
+        ctx.cat("prices-spanning-orders-of-magnitude")
     nnan = 0
     for _ in range(r.randint(0, 8)):
         X.iloc[r.randrange(len(dX)), r.randrange(nf)] = np.nan
